@@ -40,10 +40,15 @@ Agg(S) == {[k |-> "arr", es |-> es] : es \in Seqs(S, 2)}
 (* a small core for the second level *)
 Core == {Unit, Num("8000000000000000"), Num("7ff8000000000abc"), Str(""), Str("あ😀"), Code(42),
          [k |-> "closure"], [k |-> "error"],
-         [k |-> "arr", es |-> <<>>], [k |-> "tup", es |-> <<Unit>>],
+         [k |-> "arr", es |-> <<>>], [k |-> "tup", es |-> <<>>], [k |-> "rec", fs |-> <<>>],   \* the empty aggregates
+         [k |-> "tup", es |-> <<Unit>>],
          [k |-> "rec", fs |-> <<[n |-> "é", v |-> Num("0000000000000001")]>>],
          [k |-> "tag", t |-> 3, v |-> Str("a")], [k |-> "store", v |-> Unit]}
-Values == V0 \cup Agg(V0) \cup (IF Depth >= 2 THEN Agg(Core) ELSE {})
+(* a smaller core of nested values for the third level: empty aggregates in payload / element / field position *)
+Core2 == {[k |-> "tag", t |-> 3, v |-> [k |-> "tup", es |-> <<>>]], [k |-> "tag", t |-> 0, v |-> [k |-> "tag", t |-> 3, v |-> Unit]],
+          [k |-> "arr", es |-> <<[k |-> "tup", es |-> <<>>]>>], [k |-> "tup", es |-> <<[k |-> "arr", es |-> <<>>], Unit>>],
+          [k |-> "rec", fs |-> <<[n |-> "a", v |-> [k |-> "rec", fs |-> <<>>]]>>], [k |-> "tup", es |-> <<[k |-> "tup", es |-> <<Unit>>]>>]}
+Values == V0 \cup Agg(V0) \cup (IF Depth >= 2 THEN Agg(Core) ELSE {}) \cup (IF Depth >= 3 THEN Agg(Core2) ELSE {})
 
 RECURSIVE Sendable(_)
 Sendable(v) ==
